@@ -130,7 +130,7 @@ func leafOfKind(r *Rng, k string, o genOpts) *D {
 		d.N = int64(r.Intn(2))
 	case "PanicStringer", "PanicErr", "PanicGoStr", "PanicFmter":
 		d.S = QS(randPayload(r, o))
-		d.N = int64(r.Intn(9)) // payload modes 0-8 (see panicSpec.fire)
+		d.N = int64(r.Intn(10)) // payload modes 0-9 (see panicSpec.fire)
 		if d.N == 5 {
 			d.N += 10 * int64(r.Intn(2))
 		}
@@ -438,7 +438,13 @@ func randSafeFmt(r *Rng, depth int, o genOpts) *D {
 
 func randStep(r *Rng, depth int, o genOpts) *D {
 	o2 := o
-	switch r.Intn(16) {
+	switch r.Intn(19) {
+	case 16:
+		return dN([]string{"sSafeByte", "sUnsafeByte"}[r.Intn(2)], []int64{'a', '\n', ' ', '?', 'Z'}[r.Intn(5)])
+	case 17:
+		return dN("sSafeUint", []int64{0, 7, 1 << 40, -1, -9223372036854775808}[r.Intn(5)]) // (negative: the upper half of the uint64 range)
+	case 18:
+		return &D{K: "sSafeFloat", F: floatValues[r.Intn(len(floatValues))]}
 	case 0, 1:
 		return dS("sSafeString", randPayload(r, o))
 	case 2:
@@ -476,7 +482,7 @@ func randStep(r *Rng, depth int, o genOpts) *D {
 		return d
 	default:
 		if o.panics && r.Chance(1, 2) {
-			return &D{K: "sPanic", S: QS(randPayload(r, o)), N: []int64{0, 1, 2, 3, 4, 6, 7, 8}[r.Intn(8)]}
+			return &D{K: "sPanic", S: QS(randPayload(r, o)), N: []int64{0, 1, 2, 3, 4, 6, 7, 8, 9}[r.Intn(9)]}
 		}
 		return &D{K: "sVerb"}
 	}
